@@ -199,10 +199,22 @@ class Helper:
             self.params.append(p.arg)
             if d is not None:
                 self.defaults[p.arg] = d
-        self.body = _strip_doc(fn.body)
         self.is_gen = any(isinstance(n, (ast.Yield, ast.YieldFrom)) for n in _walk_own(fn))
-        self.expr = self.body[0].value if len(self.body) == 1 and isinstance(self.body[0], ast.Return) and self.body[0].value is not None else None
-        self.locals = _own_locals(fn)
+
+    # the helper's own body is rewritten by the passes that run before inlining (guard-clause flattening replaces fn.body and moves
+    # statements out of `else` branches): always read it from the function as it is now
+    @property
+    def body(self):
+        return _strip_doc(self.fn.body)
+
+    @property
+    def expr(self):
+        b = self.body
+        return b[0].value if len(b) == 1 and isinstance(b[0], ast.Return) and b[0].value is not None else None
+
+    @property
+    def locals(self):
+        return _own_locals(self.fn)
 
     def bind(self, call: ast.Call, receiver: Optional[ast.AST]) -> Optional[Dict[str, ast.AST]]:
         if not self.ok or any(k.arg is None for k in call.keywords):
@@ -1694,9 +1706,26 @@ def _drop_inlined_helpers(tree, inl, shared: frozenset):
                 changed = True
 
 
+class _MembershipInModuleTuple(ast.NodeTransformer):
+    """x in _NAMES  ->  x in (A, B)   where _NAMES is bound once at module level to a tuple / list display of names"""
+
+    def __init__(self, module_tuples):
+        self.mt = module_tuples
+
+    def visit_Compare(self, node):
+        self.generic_visit(node)
+        if len(node.ops) == 1 and isinstance(node.ops[0], (ast.In, ast.NotIn)) and isinstance(node.comparators[0], ast.Name) and node.comparators[0].id in self.mt:
+            node.comparators[0] = copy.deepcopy(self.mt[node.comparators[0].id])
+        return node
+
+
 def normalise_module(module_name: str, tree: ast.Module, multiply_defined: frozenset = frozenset()) -> ast.Module:
     mt: Dict[str, ast.Tuple] = {}
     counts: Dict[str, int] = {}
+    # module-level `NAME: T = value` reads like `NAME = value` for everything below (the annotation of a module constant is not used)
+    for k_, st in enumerate(tree.body):
+        if isinstance(st, ast.AnnAssign) and isinstance(st.target, ast.Name) and st.value is not None and st.simple:
+            tree.body[k_] = ast.copy_location(ast.Assign(targets=[st.target], value=st.value, type_comment=ast.unparse(st.annotation), lineno=st.lineno), st)
     for st in tree.body:
         if isinstance(st, ast.Assign) and len(st.targets) == 1 and isinstance(st.targets[0], ast.Name):
             counts[st.targets[0].id] = counts.get(st.targets[0].id, 0) + 1
@@ -1705,6 +1734,8 @@ def normalise_module(module_name: str, tree: ast.Module, multiply_defined: froze
     mt = {k: v for k, v in mt.items() if counts.get(k) == 1}
     _local_annotations_to_assignments(tree)
     tree = _Isinstance(mt).visit(tree)
+    if mt:
+        tree = _MembershipInModuleTuple(mt).visit(tree)
     _swap_negative_ifs(tree)
     inl = Inliner(module_name, tree, multiply_defined)
     had_helpers = bool(inl.helpers)
